@@ -44,6 +44,14 @@ theorem andThen_ofFlag (f g : BOp R) (b : Builder R) :
 theorem ofFlag_fail (b : Builder R) : ofFlag (BOp.fail b) = (b, none) := rfl
 theorem ofFlag_skip (b : Builder R) : ofFlag (BOp.skip b) = (b, some ()) := rfl
 
+/-- both sides are `if`s over (possibly differently spelled) arithmetic tests: split everything, equal branches are `rfl`,
+contradictory ones are refuted by `omega` -/
+macro "src_ite" : tactic =>
+  `(tactic| (repeat' split) <;> first | rfl | (exfalso; omega) | (simp_all; done) | omega)
+
+theorem natAbs_mag (v : Int) : (if v ≥ (0 : Int) then v else (-v - 1)).natAbs = if v ≥ 0 then v.toNat else (-v - 1).toNat := by
+  split <;> omega
+
 /-! ### the trusted readings of `int2ba` are the model's -/
 
 theorem int2ba_unsigned (v : Int) (n : Nat) : Py.int2ba? v n false = BOp.int2baU v n := by
@@ -59,7 +67,7 @@ theorem int2ba_signed (v : Int) (n : Nat) : Py.int2ba? v n true = BOp.int2baS v 
 
 theorem src_check_overflow (n : Nat) (bits : Bits) :
     TvmBitarray_check_overflow n bits = (bits, if bits.length + n > 1023 then none else some ()) := by
-  unfold TvmBitarray_check_overflow; split <;> rfl
+  unfold TvmBitarray_check_overflow; src_ite
 
 theorem src_extend_eq (x : Bits) (b : Builder R) :
     Py.zoom (TvmBitarray_extend x b.bits) (fun v => { b with bits := v }) = ofFlag (BOp.extend x b) := by
@@ -149,7 +157,7 @@ theorem src_store_bit_bool (v : Bool) (b : Builder R) : store_bit (if v then 1 e
 
 theorem src_store_ref_eq (r : R) (b : Builder R) : store_ref r b = ofFlag (BOp.storeRef r b) := by
   unfold store_ref BOp.storeRef ofFlag
-  by_cases h : b.refs.length ≥ 4 <;> simp [h]
+  src_ite
 
 theorem src_store_maybe_ref_eq (r : Option R) (b : Builder R) : store_maybe_ref r b = ofFlag (BOp.storeMaybeRef r b) := by
   unfold store_maybe_ref BOp.storeMaybeRef
@@ -173,24 +181,15 @@ theorem src_store_var_uint_eq (v : Int) (k : Nat) (b : Builder R) :
   unfold store_var_uint BOp.storeVarUint
   by_cases h0 : v = 0
   · simp only [h0, if_true, src_store_uint_eq, bindS_retU]
-  · have hl : Py.ceilDiv (Py.bitLength v.natAbs) 8 = (BOp.bitLen v.natAbs + 7) / 8 := by
-      rw [ceilDiv8, py_bitLength_eq_bitLen]
-    simp only [h0, if_false, src_store_uint_eq, bindS_retU, andThen_ofFlag, hl]
+  · simp only [h0, if_false, src_store_uint_eq, bindS_retU, andThen_ofFlag, ceilDiv8, py_bitLength_eq_bitLen]
 
 theorem src_store_var_int_eq (v : Int) (k : Nat) (b : Builder R) :
     store_var_int v k b = ofFlag (BOp.storeVarInt v k b) := by
   unfold store_var_int BOp.storeVarInt
   by_cases h0 : v = 0
   · simp only [h0, if_true, src_store_uint_eq, bindS_retU]
-  · have hl : Py.ceilDiv (Py.bitLength (if v ≥ (0 : Int) then v else (-v - 1)).natAbs + 1) 8 =
-        (BOp.bitLen (if v ≥ 0 then v.toNat else (-v - 1).toNat) + 1 + 7) / 8 := by
-      rw [ceilDiv8, py_bitLength_eq_bitLen]
-      by_cases hp : v ≥ 0
-      · have hn : v.natAbs = v.toNat := by omega
-        simp only [hp, if_true, hn]
-      · have hn : (-v - 1).natAbs = (-v - 1).toNat := by omega
-        simp only [hp, if_false, hn]
-    simp only [h0, if_false, src_store_uint_eq, src_store_int_eq, bindS_retU, andThen_ofFlag, hl]
+  · simp only [h0, if_false, src_store_uint_eq, src_store_int_eq, bindS_retU, andThen_ofFlag, ceilDiv8, py_bitLength_eq_bitLen,
+      natAbs_mag, Nat.add_assoc]
 
 theorem src_store_coins_eq (v : Int) (b : Builder R) : store_coins v b = ofFlag (BOp.storeCoins v b) := by
   unfold store_coins BOp.storeCoins; simp only [src_store_var_uint_eq, bindS_retU]
@@ -200,10 +199,16 @@ theorem src_store_coins_eq (v : Int) (b : Builder R) : store_coins v b = ofFlag 
 theorem src_store_cell_eq (c : Py.CellV R) (b : Builder R) : store_cell c b = ofFlag (BOp.storeCell c.bits c.refs b) := by
   unfold store_cell BOp.storeCell
   by_cases h : b.refs.length + c.refs.length > 4
-  · simp [h, ofFlag]
-  · simp only [h, if_false, src_store_bits_eq, BOp.storeBits]
-    rw [bindS_ofFlag]
-    cases hx : (BOp.extend c.bits b).2 <;> simp [ofFlag, hx]
+  · rw [if_pos h]
+    split
+    · rfl
+    · exfalso; omega
+  · rw [if_neg h]
+    split
+    · exfalso; omega
+    · simp only [src_store_bits_eq, BOp.storeBits]
+      rw [bindS_ofFlag]
+      cases hx : (BOp.extend c.bits b).2 <;> simp [ofFlag, hx]
 
 /-- the loop of `store_slice` over the remaining references is the model's `storeRefs` -/
 theorem src_forS_refs (refs : List R) (off k : Nat) (hk : off + k = refs.length) (b : Builder R) :
@@ -231,13 +236,16 @@ theorem src_store_slice_eq (s : Py.SliceSt R) (hs : s.ref_offset ≤ s.refs.leng
   unfold store_slice BOp.storeSlice
   rw [List.length_drop]
   by_cases h : b.refs.length + (s.refs.length - s.ref_offset) > 4
-  · have h' : ((b.refs.length : Nat) : Int) + (((s.refs.length : Nat) : Int) - ((s.ref_offset : Nat) : Int)) > (4 : Int) := by omega
-    rw [if_pos h', if_pos h]; rfl
-  · have h' : ¬ ((b.refs.length : Nat) : Int) + (((s.refs.length : Nat) : Int) - ((s.ref_offset : Nat) : Int)) > (4 : Int) := by omega
-    rw [if_neg h', if_neg h]
-    simp only [src_store_bits_eq, bindS_retU, andThen_ofFlag, BOp.storeBits]
-    congr 1
-    funext s' _
-    exact src_forS_refs s.refs s.ref_offset (s.refs.length - s.ref_offset) (by omega) s'
+  · rw [if_pos h]
+    split
+    · rfl
+    · exfalso; omega
+  · rw [if_neg h]
+    split
+    · exfalso; omega
+    · simp only [src_store_bits_eq, bindS_retU, andThen_ofFlag, BOp.storeBits]
+      congr 1
+      funext s' _
+      exact src_forS_refs s.refs s.ref_offset (s.refs.length - s.ref_offset) (by omega) s'
 
 end TonVerif.Proofs.SrcBuilder
